@@ -29,6 +29,8 @@ pub open spec fn opt_deref<'a>(o: Option<&'a LanguageParser>) -> Option<Language
         opt_deref(r) == lookup(parsers@, extra_file_extensions@, *extension), // [B6t.post.lookup_of_remapped]
 //@end
 
+// facts proved before the loop (the reading of `first_hit`) stay visible at the `return` inside it
+#[verifier::loop_isolation(false)]
 //@unit id=B6 file=src/blocks.rs fn=parser_for_file_path ret=r
 //@contract
     ensures
@@ -46,6 +48,8 @@ pub open spec fn opt_deref<'a>(o: Option<&'a LanguageParser>) -> Option<Language
         assert(base_name(*file_path) == Some(name));
         lemma_char_positions(name, '.');
         lemma_first_hit(cands, parsers@, extra_file_extensions@, 0);
+        assert(first_hit(cands, parsers@, extra_file_extensions@, cands.len() as int) is None);
+        assert(cands[dots.len() as int] == name); // the whole-name fallback is the last candidate
         if first_hit(cands, parsers@, extra_file_extensions@, 0) is Some {
             let p = first_hit(cands, parsers@, extra_file_extensions@, 0).unwrap();
             let h = choose|h: int| 0 <= h < cands.len()
@@ -69,10 +73,73 @@ pub open spec fn opt_deref<'a>(o: Option<&'a LanguageParser>) -> Option<Language
             it.seq().len() == dots.len() ==> (forall|j: int| 0 <= j < it.seq().len() ==> (#[trigger] it.seq()[j]).0 == byte_off(name, dots[dots.len() - 1 - j])), // [B6.inv.dots_visited_last_to_first]
             it.seq().len() == dots.len(),
             forall|j: int| 0 <= j < it.seq().len() ==> (#[trigger] it.seq()[j]).0 < isize::MAX,
-//@edit rule=ghost after=<<{ let extension>> before_stmt=1
+//@edit rule=ghost before=<<let extension>>
+        let ghost jj = it.index@ as int;
+        let ghost k = dots[dots.len() - 1 - jj];
+        proof {
+            assert(i == it.seq()[jj].0);
+            assert(0 <= k < name.len() && name[k] == '.');
+            assert(byte_off(name, k + 1) == byte_off(name, k) + utf8_len(name[k]));
+            assert(is_char_boundary(name, i + 1));
+            assert(cands[jj] == name.subrange(k + 1, name.len() as int));
+        }
+//@edit rule=ghost before=<<if let Some(parser) = try_parser_for_extension>>
+        proof {
+            // the candidate tried in this round is the suffix after the jj-th dot from the right
+            assert(extension@ == cands[jj]); // [B6.step.candidate_is_suffix_after_dot]
+            assert(ext_os == osstring_of(cands[jj]));
+        }
 //@wrap rule=E13 find=<<&file_name[>> to=<<verif_str_index(file_name, >> close=<<)>>
 //@edit rule=E13 find=<<OsString::from($a)>> count=all
 verif_osstring_from_str($a)
+//@end
+
+//@include prelude/blocks_parse.rs
+
+//@unit id=B5 file=src/blocks.rs fn=parse_file ret=r
+//@contract
+    requires
+        lcs_wf(line_changes@), // [B5.pre.line_changes_wf]
+        // the caller may only hand over files it is entitled to read (when they have a grammar at all)
+        grammar_for(*file_path, parsers@, extra_file_extensions@) is Some ==> file_reader.may_read(*file_path), // [B5.pre.may_read_if_grammar]
+    ensures
+        // C16: a name that maps to no grammar is skipped (and, FS.read.pre: never read)
+        grammar_for(*file_path, parsers@, extra_file_extensions@) is None ==> r matches Ok(None), // [B5.post.unknown_name_skipped]
+        grammar_for(*file_path, parsers@, extra_file_extensions@) is Some && file_reader.read_spec(*file_path) is None ==> r is Err, // [B5.post.read_err_propagates]
+        // C12: a parse error (unbalanced tags) is a hard error, never a silent skip
+        grammar_for(*file_path, parsers@, extra_file_extensions@) is Some && file_reader.read_spec(*file_path) is Some // [B5.post.parse_err_propagates]
+            && grammar_for(*file_path, parsers@, extra_file_extensions@).unwrap().parse_spec(file_reader.read_spec(*file_path).unwrap()) is None
+            ==> r is Err,
+        // C02: the blocks kept are, in order, exactly those the filter selects, with the two flags of B3/B4
+        grammar_for(*file_path, parsers@, extra_file_extensions@) is Some && file_reader.read_spec(*file_path) is Some // [B5.post.selected_blocks_with_flags]
+            && grammar_for(*file_path, parsers@, extra_file_extensions@).unwrap().parse_spec(file_reader.read_spec(*file_path).unwrap()) is Some
+            ==> (r matches Ok(Some(fb)) && fb.file_content@ == file_reader.read_spec(*file_path).unwrap()
+                && fb.blocks_with_context@ == select_blocks(
+                    grammar_for(*file_path, parsers@, extra_file_extensions@).unwrap().parse_spec(file_reader.read_spec(*file_path).unwrap()).unwrap(),
+                    line_changes@, blocks_filter)),
+        // summary used by B7: the result is a function of the inputs
+        outcome_of(r) == parse_file_spec(*file_path, line_changes@, blocks_filter, file_reader, parsers@, extra_file_extensions@), // [B5.post.outcome_is_function_of_inputs]
+//@dropcall rule=E1 name=context
+//@closure rule=E12 find=<<|block|>> params=<<|block: Block|>> ret=<<o: Option<BlockWithContext>>>
+            requires
+                block_wf(block),
+                lcs_wf(line_changes@),
+            ensures
+                o == select_block(block, line_changes@, blocks_filter), // [B5.closure.keep_iff_all_or_touched]
+//@edit rule=ghost before=<<let blocks_with_context>>
+    let ghost bs = blocks@;
+//@chain rule=E3 find=<<.into_iter().filter_map(>> to=verif_filter_map_collect suffix=<<.collect()>>
+//@edit rule=ghost before=<<Ok(Some(FileBlocks>>
+    proof {
+        let lcs = line_changes@;
+        assert(exists|outs: Seq<Option<BlockWithContext>>| outs.len() == bs.len()
+            && (forall|i: int| 0 <= i < bs.len() ==> #[trigger] outs[i] == select_block(bs[i], lcs, blocks_filter))
+            && blocks_with_context@ == somes(outs));
+        let outs = choose|outs: Seq<Option<BlockWithContext>>| outs.len() == bs.len()
+            && (forall|i: int| 0 <= i < bs.len() ==> #[trigger] outs[i] == select_block(bs[i], lcs, blocks_filter))
+            && blocks_with_context@ == somes(outs);
+        assert(outs =~= Seq::new(bs.len(), |i: int| select_block(bs[i], lcs, blocks_filter)));
+    }
 //@end
 
 } // verus!
